@@ -15,6 +15,9 @@ _BUILTIN_NAMES = {'float': float, 'int': int, 'bool': bool, 'str': str, 'list': 
                   'None': None, 'True': True, 'False': False}
 
 
+_MISSING = object()
+
+
 def funcs(ctx, module=None, stubs=None):
     fn = {}
 
@@ -29,6 +32,7 @@ def funcs(ctx, module=None, stubs=None):
             return cands[0]
         return None
     consts = {}
+    exprs = {}
 
     def name_of(nm):
         if stubs and nm in stubs:
@@ -49,6 +53,20 @@ def funcs(ctx, module=None, stubs=None):
                     break
         if consts[nm] is not None:
             return consts[nm].value
+        # a module-level constant given by an expression (EPS = np.finfo(float).eps, TWO_PI = 2 * math.pi): evaluated once
+        if nm not in exprs:
+            exprs[nm] = _MISSING
+            mods = ([ctx.prog.modules[module]] if module in ctx.prog.modules else []) + list(ctx.prog.modules.values())
+            for m in mods:
+                c = m.consts.get(nm)
+                if c is not None and not isinstance(c, (ast.Constant, ast.Lambda)):
+                    try:
+                        exprs[nm] = orders.ev(c, {}, fn)
+                    except orders.Unsupported:
+                        pass
+                    break
+        if exprs[nm] is not _MISSING:
+            return exprs[nm]
         if nm in _BUILTIN_NAMES:
             return _BUILTIN_NAMES[nm]
         raise orders.Unsupported('free name %s' % nm)
@@ -79,10 +97,33 @@ def methods_of(ctx, clsqual):
     return out
 
 
+def consts_of(ctx, clsqual, fn=None):
+    """class-level constants of a repository class (and of its repository bases), also under their mangled names"""
+    out = {}
+    c = ctx.prog.cls(clsqual)
+    for b in c.bases:
+        for q, ci in ctx.prog.classes.items():
+            if ci.name == b.split('.')[-1] and ci is not c:
+                out.update(consts_of(ctx, q, fn))
+    for k, v in c.consts.items():
+        try:
+            val = ast.literal_eval(v)
+        except Exception:
+            try:
+                val = orders.ev(v, dict(out), fn)
+            except Exception:
+                continue
+        out[k] = val
+        if k.startswith('__') and not k.endswith('__'):
+            out['_' + c.name.lstrip('_') + k] = val
+    return out
+
+
 def instance(ctx, clsqual, fields, fn, isa=None):
     c = ctx.prog.cls(clsqual)
     o = orders.Obj(dict(fields), methods_of(ctx, clsqual), fn, isa=isa or {c.name})
     o.clsname = c.name
+    o.consts = consts_of(ctx, clsqual, fn)
     return o
 
 
@@ -105,9 +146,9 @@ class ClassRef(orders.PyStub):
         object.__setattr__(self, '_qual', clsqual)
         object.__setattr__(self, '_fn', fn)
         object.__setattr__(self, 'isa', ('type',))
-        for k, v in c.consts.items():
+        for k, v in consts_of(ctx, clsqual, fn).items():
             try:
-                setattr(self, k, ast.literal_eval(v))
+                setattr(self, k, v)
             except Exception:
                 pass
         for name, node in methods_of(ctx, clsqual).items():
@@ -152,6 +193,7 @@ def deep_copy(v, memo=None):
     if isinstance(v, orders.Obj):
         o = orders.Obj({}, v.methods, v.funcs, isa=v.isa)
         o.clsname = v.clsname
+        o.consts = getattr(v, 'consts', None)
         memo[id(v)] = o
         o.fields = {k: deep_copy(x, memo) for k, x in v.fields.items()}
         return o
